@@ -139,13 +139,81 @@ def c13_cases():
             cases.append(("gen", ai, bi, k))
         for k in range(1, 300, 9):
             cases.append(("visit", ai, bi, k))
+    # pre-emption near the start and near the end of an operation, at line
+    # granularity, for every operation kind (set-up and tear-down code runs
+    # there: instance construction, state reset, default objects, final checks)
+    for pi, (ka, kb) in enumerate(EDGE_PAIRS):
+        for k in range(1, 61):
+            cases.append(("edge-start", pi, 0, k))
+        for k in range(1, 41):
+            cases.append(("edge-end", pi, 0, k))
+        # two pre-emptions: A is stopped k steps after its start, B gets j steps
+        # (so that it is *inside* its operation), A runs to its end, B finishes
+        for k in range(1, 49):
+            for j in EDGE_LADDER:
+                cases.append(("edge-2", pi, j, k))
     _CACHE["c13"] = cases
     return cases
+
+
+EDGE_LADDER = [6, 20, 60, 150, 400]
+EDGE_KINDS = ["pf-default", "pf-own", "parse-sim", "parse-plain", "gen", "visit", "lex", "roundtrip"]
+EDGE_PAIRS = [(k, k) for k in EDGE_KINDS] + [
+    ("pf-default", "parse-plain"), ("pf-own", "pf-default"), ("parse-sim", "parse-plain"), ("gen", "visit"),
+    ("roundtrip", "gen"), ("lex", "parse-sim"), ("parse-plain", "gen"), ("visit", "parse-sim"),
+]
+
+
+def _edge_op(kind, items, i, ci):
+    fn = "act%d.c" % i
+    if kind == "pf-default":
+        return {"op": "parse_file", "filename": fn, "items": items, "default_parser": True, "use_cpp": bool(ci % 3 == 0)}
+    if kind == "pf-own":
+        return {"op": "parse_file", "filename": fn, "items": items, "obj": "P0" if ci % 2 else "P1", "use_cpp": bool(ci % 3 == 0)}
+    if kind == "parse-sim":
+        return {"op": "parse", "filename": fn, "items": items, "obj": "P1"}
+    if kind == "parse-plain":
+        return {"op": "parse", "filename": fn, "items": items, "obj": "P0"}
+    if kind == "gen":
+        return {"op": "gen", "filename": fn, "items": items, "select": ["root", 0], "reduce": bool(ci % 2), "gencls": "plain"}
+    if kind == "visit":
+        return {"op": "visit", "filename": fn, "items": items, "visitor": ["Collect", "CollectMore"][i % 2], "tag": "tag%d" % i}
+    if kind == "lex":
+        return {"op": "lex", "filename": fn, "items": items, "sim": True, "errmode": "record"}
+    return {"op": "roundtrip", "filename": fn, "items": items, "reduce": False}
 
 
 def c13_spec(ci):
     kind, ai, bi, k = c13_cases()[ci]
     progs = _pair_programs()
+    if kind in ("edge-start", "edge-end", "edge-2"):
+        ka, kb = EDGE_PAIRS[ai]
+        n = len(progs)
+        A = list(progs[H("edgeA", ai, k) % n])
+        B = list(progs[H("edgeB", ai, k) % n])
+        actors = [
+            {"reuse": False, "ops": [_edge_op(ka, A, 0, ci)], "kind": kind},
+            {"reuse": False, "ops": [_edge_op(kb, B, 1, ci)], "kind": kind},
+        ]
+        for i, a in enumerate(actors):
+            a["markers"] = {"strings": ["act%d.c" % i, "tag%d" % i], "line_block": None, "not_for": {}}
+        spec = {
+            "property": "C13",
+            "mode": "line",
+            "policy": {"kind": "sweep"},
+            "actors": actors,
+            "check_fresh": False,
+            "swarm": {"faulty": False, "theme": "sweep:" + kind},
+        }
+        if kind == "edge-start":
+            spec["schedule"] = [[0, k], [1, 1 << 40], [0, 1 << 40]]
+        elif kind == "edge-2":
+            spec["schedule"] = [[0, k], [1, bi], [0, 1 << 40], [1, 1 << 40]]
+        else:
+            # resolved by the runner once the solo step count of actor 0 is known
+            spec["schedule_from_end"] = k
+            spec["schedule"] = [[0, 1 << 40], [1, 1 << 40]]
+        return spec
     A, B = list(progs[ai]), list(progs[bi])
     if kind == "tok":
         opk = ["parse", "parse", "roundtrip", "parse_file"][ci % 4]
